@@ -48,10 +48,10 @@ def axis_case(draw):
     p = draw(est.params(row, N, cplx, windows=sorted(spectrum.window.window_names.keys())))
     if row == "pcorrelogram" and draw(st.booleans()):
         # the length/axis clause holds for every documented lag (lag < N), also when 2*lag+1 exceeds NFFT
-        p["lag"] = draw(st.integers(1, N - 1))
-        lo = N
-    else:
-        lo = max(N, est.min_nfft(row, N, p))
+        p["lag"] = draw(st.integers((N + 1) // 2, N - 1))
+        nfft = draw(st.sampled_from([None, N, N + 1, "nextpow2"]))
+        return {"row": row, "x": x, "params": p, "nfft": nfft, "sampling": draw(gen.sampling)}
+    lo = max(N, est.min_nfft(row, N, p))
     nfft = draw(gen.nfft_at_least(lo, hi_mult=3, allow_none=(lo == N)))
     return {"row": row, "x": x, "params": p, "nfft": nfft, "sampling": draw(gen.sampling)}
 
